@@ -181,13 +181,16 @@ def handlers : List (String × Handler) := [
       let data ← getPairs sj "data"
       match ← getReqs sj "request" with
       | [q] => pure (⟨data, ← getInt sj "nch", q.rs, q.re, q.cs, q.ce, q.asIdx, ← getBool sj "refuses",
-                      (match getBool sj "labelmap" with | .ok b => b | .error _ => false)⟩ : ChanRead)
+                      (match getBool sj "labelmap" with | .ok b => b | .error _ => false),
+                      (match getBool sj "mid_iteration" with | .ok b => b | .error _ => false)⟩ : ChanRead)
       | _ => throw "request must be a one-element list")
     match tiledSegTable (some 0) (segs.zip ms) R C tr tc full omitE with
     | .error e => pure (Json.mkObj [("err", Json.str e.toString)])
     | .ok (lut, frames) =>
-      let results := (runHistory (some 0) lut frames R C tr tc full true steps none).1
-      let states := historyStates (some 0) lut frames R C tr tc full true steps none
+      -- with locks: whether the iterator closes its cursor is regenerated (T4t); `kept`: the caller keeps the exceptions
+      let kept := match getBool j "exceptions_kept" with | .ok b => b | .error _ => false
+      let results := (runHistoryL (some 0) lut frames R C tr tc full true tiledRegionCursorClosedOnExit kept steps ⟨none, false⟩).1
+      let states := historyStatesL (some 0) lut frames R C tr tc full true tiledRegionCursorClosedOnExit kept steps ⟨none, false⟩
       let resJ := (results.zip steps).map (fun (rq : Except ErrKind (Int × Int × (Int → Img Px)) × ChanRead) =>
         match rq.1 with
         | .error e => Json.mkObj [("err", Json.str e.toString)]
